@@ -198,14 +198,29 @@ class Builder:
     def build_map(self, m, ft):
         cls = resolve(ft.elem)
         out = collections.defaultdict(cls) if ft.default_factory else {}
+        ktag = getattr(getattr(ft, 'key', None), 'tag', None)
         for k, rec in m.items():
+            if ktag is not None:
+                # keys declared Opaque(tag): the same token objects that stand for values of that type elsewhere
+                tk = (str(ktag), int(k))
+                if tk not in self.tokens:
+                    self.tokens[tk] = OpaqueToken(*tk)
+                k = self.tokens[tk]
             o = cls.__new__(cls)
             for n, v in rec.items():
+                if n.endswith('?'):
+                    continue  # is-None companion column of an optional field
+                if rec.get(n + '?') is True:
+                    v = None
+                elif isinstance(v, int) and isinstance(getattr(self.reg.models[ft.elem].fields.get(n), 't', self.reg.models[ft.elem].fields.get(n)), C.Opaque):
+                    v = f'opaque#{v}'
                 if isinstance(v, bool) and isinstance(getattr(self.reg.models[ft.elem].fields.get(n), '__class__', None), type) and _is_event_field(self.reg.models[ft.elem].fields.get(n)):
                     ev = asyncio.Event()
                     if v:
                         ev.set()
                     v = ev
+                if isinstance(v, dict) and '__opq__' in v:
+                    v = self.build(v)  # an opaque-valued record field: the shared token
                 setattr(o, n, v)
             out[k] = o
         return out
@@ -405,7 +420,9 @@ def run_native(top, registry, state, extra_check=None):
             base = (getattr(f, '__module__', '') or '').split('.')[0]
             fname = getattr(f, '__name__', None)
             stub = b.callback(cb)
-            for pname in {base, base.lstrip('_')}:  # C accelerators live in _asyncio, the code says asyncio.X
+            # C accelerators live in _asyncio, the code says asyncio.X; a function of a repo/library submodule
+            # (bumble.crypto.f4) is reached through that module's attribute
+            for pname in {base, base.lstrip('_'), getattr(f, '__module__', '') or ''}:
                 pkg = sys.modules.get(pname)
                 if pkg is not None and fname and getattr(pkg, fname, None) is f:
                     patches.append((pkg, fname, f))
